@@ -42,11 +42,11 @@ man = {
         {"name": "pcfacts", "path": "driver/", "serves_properties": [c["property_id"] for c in checks],
          "kind_free_text": "rustc_private driver run as RUSTC_WORKSPACE_WRAPPER under cargo +nightly check: dumps MIR with resolved callees, ADTs, HIR const trees of /repo's current working tree"},
         {"name": "rules", "path": "rules/", "serves_properties": [c["property_id"] for c in checks],
-         "kind_free_text": "Python rule library: path-sensitive term evaluation of MIR, GF(2) bit-affine domain (BIT), linear-inequality guards (LIN), table/sibling/ADT/path rules; fail-closed floors"},
+         "kind_free_text": "Python rule library: path-sensitive term evaluation of MIR, semantic summaries compared with specifications (conditions as boolean functions, decided by region enumeration + Fourier-Motzkin; no solver), GF(2) bit-affine domain (BIT), linear-inequality discharge of panic obligations (LIN), table/sibling/ADT/path rules; fail-closed floors"},
     ],
     "checks": checks,
     "not_applicable": na,
-    "notes": "Technique family: static analysis only. Each check rebuilds its facts from /repo's working tree (content-hashed cache under /verif/.cache).",
+    "notes": "Technique family: static analysis only; nothing in /repo is executed. Each check rebuilds its facts from /repo's working tree (content-hashed cache under /verif/.cache). Thorough = quick + configuration C for C14 + the checker's self-test on scratch copies (seeded changes of the property must fire, benign variants must stay silent; informational, recorded in evidence). Which seeded change is caught by which check: DESIGN.md section 10; benign-variant results and the triaged residual false alarms: section 11.1.",
 }
 json.dump(man, open(os.path.join(HERE, "MANIFEST.json"), "w"), indent=1)
 print("claimed:", [c["property_id"] for c in checks], "n/a:", len(na))
